@@ -467,6 +467,10 @@ pub struct UsableCase {
     /// on the mock; the ordered sequence must simply continue afterwards
     #[serde(default)]
     pub destructor_call: bool,
+    /// the clone that dies of the panic had lent a value that owns another clone of the mock
+    /// (`cl.make_ref(cl.clone())`): it must be released with the clone, or the original sees a phantom live clone
+    #[serde(default)]
+    pub lent_clone: bool,
 }
 
 /// value the destructor's ordered call returned (0 = not run)
@@ -597,14 +601,26 @@ pub fn execute_usable(c: &UsableCase) -> String {
                 }
                 Via::CloneDroppedUnwinding => {
                     let u = original.as_ref().unwrap();
+                    let lent = c.lent_clone;
                     catch(|| {
                         let cl = u.clone();
+                        if lent {
+                            let _held: &Unimock = cl.make_ref(cl.clone());
+                        }
                         usable_trigger(origin, &cl)
                     })
                 }
                 Via::CloneOnJoinedThread => {
                     let cl = original.as_ref().unwrap().clone();
-                    std::thread::spawn(move || usable_trigger(origin, &cl)).join().map_err(payload_to_string)
+                    let lent = c.lent_clone;
+                    std::thread::spawn(move || {
+                        if lent {
+                            let _held: &Unimock = cl.make_ref(cl.clone());
+                        }
+                        usable_trigger(origin, &cl)
+                    })
+                    .join()
+                    .map_err(payload_to_string)
                 }
                 Via::SharedOnJoinedThread => {
                     let arc = Arc::new(original.take().unwrap());
@@ -681,9 +697,12 @@ pub fn usable_table() -> Vec<UsableCase> {
         for via in VIAS {
             for repeats in [1u8, 2, 3] {
                 for short in [false, true] {
-                    v.push(UsableCase { usable_origin, via, repeats, short, destructor_call: false });
+                    v.push(UsableCase { usable_origin, via, repeats, short, destructor_call: false, lent_clone: false });
                     if repeats == 1 && matches!(via, Via::Original | Via::CloneKept) {
-                        v.push(UsableCase { usable_origin, via, repeats, short, destructor_call: true });
+                        v.push(UsableCase { usable_origin, via, repeats, short, destructor_call: true, lent_clone: false });
+                    }
+                    if repeats <= 2 && matches!(via, Via::CloneDroppedUnwinding | Via::CloneOnJoinedThread) {
+                        v.push(UsableCase { usable_origin, via, repeats, short, destructor_call: false, lent_clone: true });
                     }
                 }
             }
@@ -707,6 +726,7 @@ pub fn check_usable(worker: &std::cell::RefCell<Worker>, case: &UsableCase) -> R
             })
             .class_if(case.short, "one-call-short-at-the-end")
             .class_if(case.destructor_in_effect(), "ordered-call-by-a-destructor-during-the-unwinding")
+            .class_if(case.lent_clone && matches!(case.via, Via::CloneDroppedUnwinding | Via::CloneOnJoinedThread), "dying-clone-had-lent-a-value-owning-a-clone")
             .class_if(matches!(case.via, Via::CloneOnJoinedThread | Via::SharedOnJoinedThread), "panic-killed-a-joined-thread")),
         Reply::Line(l) if l.contains("HARNESS") => Err(format!("HARNESS: {l}")),
         Reply::Line(l) => Err(l),
